@@ -13,7 +13,7 @@ func init() {
 	register("C07", propMeta{
 		Level: "other",
 		Explanation: "R07a (path machine over executionContext.run): on every path with a non-empty idempotency key the key is reserved (Referencer.take, kind referenceIks) before the store lookup and before the executor runs, the reservation is released by a defer of run itself (so after the persistence wait, R06a) and never earlier. " +
-			"R07i: every execution context of the commander is built from the command.Parameters the entry point received (not a rebuilt value that loses the key); R07j: every command.Parameters composite built under internal/api (v1, v2, bulk) fills IdempotencyKey from the request. " +
+			"R07k: the header every API version reads the idempotency key from is one constant, declared as a header parameter in the OpenAPI document of the repository; R07l: every Referencer.release names the kind and key of a take of the same function; R07i: every execution context of the commander is built from the command.Parameters the entry point received (not a rebuilt value that loses the key); R07j: every command.Parameters composite built under internal/api (v1, v2, bulk) fills IdempotencyKey from the request. " +
 			"R07b: every log that is chained in package command (both the real and the preview path) comes from a builder whose every return has, when the key is non-empty, passed through Log.WithIdempotencyKey(Parameters.IdempotencyKey) — for every kind of write, because all kinds funnel through the same function. R07c: the store lookup by key is ledger-scoped and filters on the key column. R07d: between the engine and the store the key is only ever copied. R07f: on the nil-error edge of the store lookup (a log carrying the key exists) no write is executed, whatever else the found log is compared with. R07h: Referencer.release performs exactly one mutation, Delete, of the entry take stored (same table, same key expression). R07g: the key that is reserved and looked up is Parameters.IdempotencyKey itself on every path. R07e: the lookup sees every committed log carrying the key — in the PostgreSQL store its query is conditioned by the key and the ledger only, in the other stores it reads no other field of the stored records — so no committed holder of the key is filtered out of the check.",
 		NotDecided:  "uniqueness in SQL (there is no unique index on idempotency_key; the in-memory reservation plus the lookup is the whole mechanism); behaviour across several processes sharing one ledger.",
 		Trusted:     []string{"sync.Map LoadOrStore/Delete semantics", "defer ordering"},
@@ -28,10 +28,12 @@ func init() {
 		ruleReferencerSymmetric(c, "R07h")
 		ruleParametersReachContext(c, "R07i")
 		ruleAPIParametersCarryKey(c, "R07j")
+		ruleIdempotencyHeaderAgrees(c, "R07k")
+		ruleReleaseMatchesTake(c, "R07l")
 	})
 	register("C11", propMeta{
 		Level: "other",
-		Explanation: "R11a (path machine over every function that reserves a transaction reference): with a non-empty reference, the reservation (Referencer.take, kind referenceTxReference) precedes the store lookup; the log is handed off only after reservation and lookup, never on the path where the lookup found a transaction; the reservation is released (directly or by defer) only on paths that have waited for the persistence signal of the handed-off log or handed nothing off. R11b: the lookup is ledger-scoped and filters on the reference column. R11c: the reference is only ever copied between the engine and the store. R11e: Referencer.release gives back exactly the entry take reserved (one Delete, same table and key). R11g: every HTTP handler that creates a transaction tests the error of each CreateTransaction call for the conflict code of the engine (in the handler or a helper the error is handed to). R11f: after the store look-up of the reference, execution continues (compile, lock, append) only on paths where the look-up error was shown to be the not-found error. R11d: the lookup sees every committed transaction carrying the reference (query conditioned by reference and ledger only; in-memory store reads no other field) — a reverted transaction still holds its reference.",
+		Explanation: "R11a (path machine over every function that reserves a transaction reference): with a non-empty reference, the reservation (Referencer.take, kind referenceTxReference) precedes the store lookup; the log is handed off only after reservation and lookup, never on the path where the lookup found a transaction; the reservation is released (directly or by defer) only on paths that have waited for the persistence signal of the handed-off log or handed nothing off. R11b: the lookup is ledger-scoped and filters on the reference column. R11c: the reference is only ever copied between the engine and the store. R11e: Referencer.release gives back exactly the entry take reserved (one Delete, same table and key). R11h: every Referencer.release in package command names the kind and key of a take of the same function (a release under another kind frees a reference reservation another request holds). R11g: every HTTP handler that creates a transaction tests the error of each CreateTransaction call for the conflict code of the engine (in the handler or a helper the error is handed to). R11f: after the store look-up of the reference, execution continues (compile, lock, append) only on paths where the look-up error was shown to be the not-found error. R11d: the lookup sees every committed transaction carrying the reference (query conditioned by reference and ledger only; in-memory store reads no other field) — a reverted transaction still holds its reference.",
 		NotDecided:  "there is no SQL fallback (no unique index on reference): the in-memory reservation spanning lookup→persistence is the whole mechanism, which is what is decided; several processes on one ledger are out of scope.",
 		Trusted:     []string{"sync.Map semantics", "the store lookup observes every log whose InsertLogs returned"},
 	}, func(c *Ctx) {
@@ -42,11 +44,12 @@ func init() {
 		ruleReferencerSymmetric(c, "R11e")
 		ruleLookupErrorEndsRequest(c, "R11f")
 		ruleConflictIsAnswered(c, "R11g")
+		ruleReleaseMatchesTake(c, "R11h")
 	})
 	register("C10", propMeta{
 		Level: "other",
 		Explanation: "R10a: in RevertTransaction the in-flight guard (take, kind referenceReverts, keyed by the id) precedes the store read of the transaction and is released only after the write returned (defer). R10b: the write is reached only on the false edge of a test of Transaction.Reverted of the transaction read for the same id. R10c: TxToScriptData's overdraft flag is the `force` parameter at the revert call site and the constant false everywhere else, and inside TxToScriptData the `allowing unbounded overdraft` text is written only under that flag. " +
-			"R10d: the REVERTED_TRANSACTION branch of the handle_log trigger calls revert_transaction with the JSON key of RevertedTransactionLogPayload.RevertedTransactionID, and revert_transaction sets reverted_at scoped by id and ledger; the revert log constructor stores the reverted id and the new transaction in the right fields. R10e: the revert executes under the account lock (R02a, same executor). R10f: the reverse postings passed to the script are Transaction.Reverse() of the transaction that was read. R10h: Referencer.release gives back exactly the entry take reserved. R10i: in the Reverse methods of slice types of package ledger every whole-element move goes between mirror positions (destination index + source index = len − 1, affine in the loop variable). The revert is executed through the posting→script translation, whose structural rules (R09a provenance, R09b one send per posting in order, R09e attribution, R09h injective keys) are obligations here as well. R10g: in the Reverse functions of package ledger every reversed posting takes its fields from ONE original posting (endpoints swapped inside an element, or all fields stored from the same element).",
+			"R10d: the REVERTED_TRANSACTION branch of the handle_log trigger calls revert_transaction with the JSON key of RevertedTransactionLogPayload.RevertedTransactionID, and revert_transaction sets reverted_at scoped by id and ledger; the revert log constructor stores the reverted id and the new transaction in the right fields. R10e: the revert executes under the account lock (R02a, same executor). R10f: the reverse postings passed to the script are Transaction.Reverse() of the transaction that was read. R10h: Referencer.release gives back exactly the entry take reserved. R10k: the in-memory store selects the transaction to revert (and to flag as reverted) by equality of identifiers, from the filtered result. R10l: every Referencer.release in package command names the kind and key of a take of the same function. R10i: in the Reverse methods of slice types of package ledger every whole-element move goes between mirror positions (destination index + source index = len − 1, affine in the loop variable). The revert is executed through the posting→script translation, whose structural rules (R09a provenance, R09b one send per posting in order, R09e attribution, R09h injective keys) are obligations here as well. R10g: in the Reverse functions of package ledger every reversed posting takes its fields from ONE original posting (endpoints swapped inside an element, or all fields stored from the same element).",
 		NotDecided:  "that the reversed list is in mirrored order, and balance restoration as a value-level fact.",
 		Trusted:     []string{"PL/pgSQL semantics of the scanned statements"},
 	}, func(c *Ctx) {
@@ -55,6 +58,8 @@ func init() {
 		ruleR10d(c)
 		ruleR10g(c)
 		ruleReverseMirrors(c, "R10i")
+		ruleInMemoryIdentityLookups(c, "R10k")
+		ruleReleaseMatchesTake(c, "R10l")
 		ruleRevertTranslation(c)
 		ruleReferencerSymmetric(c, "R10h")
 		ruleR02a(c, "R10e")
